@@ -161,4 +161,33 @@ static inline struct smt_lin sp_lin_neg(struct smt_lin l)
   l.known_term.num = (I_t)-l.known_term.num;
   return l;
 }
+/* the interval of a - b when it is an integer difference expression (coefficients of a - b as exact fractions) */
+static inline struct sp_bounds sp_bounds_of_diff(struct vec_vec_I D, struct smt_lin a, struct smt_lin b)
+{
+  struct sp_bounds r; r.ok = 0; r.lo = 0; r.hi = 0;
+  struct sp_frac kf = sp_diff_const(a, b);
+  if (kf.n % kf.d != 0) return r;
+  WIDE_t k = kf.n / kf.d;
+  U_t n = 0, x = 0, y = 0;
+  WIDE_t cx = 0, cy = 0;
+  for (U_t t = 0; t < XT_NTP; t++)
+  {
+    struct sp_frac c = sp_diff_coeff(a, b, t);
+    if (c.n != 0)
+    {
+      if (c.n % c.d != 0) return r;
+      if (n == 0) { x = t; cx = c.n / c.d; } else { y = t; cy = c.n / c.d; }
+      n++;
+    }
+  }
+  if (n == 0) { r.ok = 1; r.lo = k; r.hi = k; return r; }
+  WIDE_t rlo, rhi;
+  if (n == 1) { rlo = -(WIDE_t)D.e[x].e[0]; rhi = (WIDE_t)D.e[0].e[x]; }
+  else if (n == 2 && cx == -cy) { rlo = -(WIDE_t)D.e[x].e[y]; rhi = (WIDE_t)D.e[y].e[x]; }
+  else return r;
+  r.ok = 1;
+  r.lo = (cx > 0 ? cx * rlo : cx * rhi) + k;
+  r.hi = (cx > 0 ? cx * rhi : cx * rlo) + k;
+  return r;
+}
 #endif
